@@ -1,7 +1,15 @@
 #!/bin/bash
-# usage: tools/trial.sh <seed> <prop> [extra check args]   -> runs ./check <prop> with the seed applied
+# usage: tools/trial.sh <seed> <prop> [extra check args]
+# Runs ./check <prop> against a private worktree of /repo with the seeded change applied
+# (VERIF_REPO), so that /repo itself is not touched and trials can run side by side.
 S=/verif/seeded/$1; shift
 P=$1; shift
-/verif/tools/with_patch.sh $S/patch.diff ./check $P --no-replay "$@" > /var/tmp/trial_$(basename $S)_$P.log 2>&1
+N=$(basename $S)
+W=/tmp/trial-wt-$N-$P
+git -C /repo worktree remove --force $W >/dev/null 2>&1
+git -C /repo worktree add -q --detach $W HEAD || exit 3
+git -C $W apply $S/patch.diff || exit 3
+VERIF_REPO=$W VERIF_NO_EVIDENCE=1 /verif/check $P --no-replay "$@" > /var/tmp/trial_${N}_$P.log 2>&1
 rc=$?
-echo "$(basename $S) $P rc=$rc $(grep -c '^VIOLATION' /var/tmp/trial_$(basename $S)_$P.log) violations; $(grep -h 'failed:' /var/tmp/trial_$(basename $S)_$P.log | head -2 | cut -c1-150 | tr '\n' '|')"
+git -C /repo worktree remove --force $W
+echo "$N $P rc=$rc $(grep -c '^VIOLATION' /var/tmp/trial_${N}_$P.log) violations; $(grep -h 'failed:' /var/tmp/trial_${N}_$P.log | head -2 | cut -c1-150 | tr '\n' '|')"
